@@ -1561,6 +1561,9 @@ def extract_fn(src, spec, unit_rules):
         r29_iter_param_to_slice(src, item, ed, spec)
     if "instantiate" in spec:
         r33_instantiate_generics(src, item, ed, spec)
+        if spec["instantiate"].get("ret") and "ret" in item:
+            # the return type at the instance (`Result<V::Value, Self::Error>` names associated types of what was dropped)
+            ed.replace(item["ret"][0], item["ret"][1], spec["instantiate"]["ret"], "R33")
     if "R9" in rules:
         r9_visibility(src, item, ed, spec)
 
